@@ -123,12 +123,14 @@ def sx_stmt(s):
     if t == "opdef":
         return f"(opdef {s[1]} {sx_path(s[2])} {sx_val(s[3])} {s[4]} {sx_expr(s[5])})"
     if t == "refuse":
-        # a statement the language refuses (a declaration whose target is an index expression ..): in the spec it is the canonical
-        # no-op - a failing one (assignment through a field of a struct type that does not exist: v_set fails on every value and
-        # changes nothing; the right-hand side is a literal) or, for the forms that complete without matching, `it = it`
+        # a statement the language refuses (a declaration whose target is an index expression ..): in the spec AND in the Rc
+        # machine it is the canonical no-op - a failing one (`it = it[f]` with f a field of a struct type that does not exist:
+        # the read fails on every value, the clone taken for it is released, nothing is written; NOT a failing *write* through
+        # such a field: set_index calls make_mut before it looks at the index, which copies a shared cell of `it` in the machine
+        # although the refused statement never touches `it`) or, for the forms that complete without matching, `it = it`
         if s[1] in REFUSE_OK:
             return "(assign 0 (p) (read 0 (p)))"
-        return "(assign 0 (p (f 99 0)) (lit N))"
+        return "(assign 0 (p) (read 0 (p (f 99 0))))"
     if t == "everyop":
         return f"(everyop {s[1]} {sx_path(s[2])} {s[3]} {sx_expr(s[4])})"
     if t == "andop":
